@@ -107,6 +107,13 @@ def build_tree(root, rng):
     for rel, text in files.items():
         with open(os.path.join(root, rel), "w") as f:
             f.write(text)
+    # symbolic links whose NAME says something else than the file they lead to: `c/link.sdl` (no supported extension) and
+    # `c/link.json` both lead to a/schema.graphql, `c/link.graphql` leads to a/schema.json. What a call on such a path gives
+    # (an error, mostly) must not depend on whether the target was loaded under its own name before
+    os.symlink(os.path.join(root, "a", "schema.graphql"), os.path.join(root, "c", "link.sdl"))
+    os.symlink(os.path.join(root, "a", "schema.graphql"), os.path.join(root, "c", "link.json"))
+    os.symlink(os.path.join(root, "a", "schema.json"), os.path.join(root, "c", "link.graphql"))
+    os.symlink(os.path.join(root, "a", "schema.graphql"), os.path.join(root, "c", "same.graphqls"))
     P = lambda rel: os.path.join(root, rel)
     calls = []
 
@@ -130,6 +137,8 @@ def build_tree(root, rng):
     # cross: valid files, wrong pairing -> validation error (or, by chance, success: whatever the reference says)
     call("a/schema.graphql", "b/q.graphql")
     call("b/schema.graphql", "a/q.graphql")
+    for ln in ("c/link.sdl", "c/link.json", "c/link.graphql", "c/same.graphqls"):
+        call(ln, "a/q.graphql")
     # failing calls
     call("c/missing.graphql", "a/q.graphql")
     call("a/schema.graphql", "c/missing_q.graphql")
